@@ -104,7 +104,7 @@ func runC03(c *Ctx) {
 	}
 	// user names: ordinary, empty, with domain
 	// (also names made of characters that mean something to pattern matchers)
-	p.User = []string{"user0", "user0", "user0", "", "bob@corp.test", "*", "user?", "[a-z]*", "user0|user1", ".*"}[c.T.Choose(10)]
+	p.User = []string{"user0", "user0", "user0", "", "bob@corp.test", "*", "user?", "[a-z]*", "user0|user1", ".*", "user$1", "svc$$", "pc${0}$"}[c.T.Choose(13)]
 	placeholder := c.T.Bool(1, 2)
 	ipv6 := c.T.Bool(1, 4)
 	var hosts []string
